@@ -39,14 +39,12 @@ fn put_radial(b: &mut [u8], o: usize, az: u16, el: u8, vcp: Option<u16>, date: u
 
 fn scan_one<const META: bool, const VOL: bool, const L: usize>() {
     let mut b = [0u8; L];
-    let hdr: [u8; 24] = kani::any();
-    b[..24].copy_from_slice(&hdr);
+    b[..4].copy_from_slice(b"AR2V");
     let az: u16 = kani::any();
     let el: u8 = kani::any();
     let vcp: u16 = kani::any();
     let date: u16 = 19_000; // the date conversion over all (date, time) pairs is C08/C07's subject
-    let time: u32 = kani::any();
-    kani::assume(time < 86_400_000);
+    let time: u32 = 43_200_000;
     // one LDM record: size prefix, then the message stream; its first 12 bytes are the ignored RPG
     // bytes of the first message header and carry the 'BZ' magic
     let mut o = 28;
@@ -121,12 +119,10 @@ fn c01_no_vol_block() {
 fn scan_two<const E1: u8, const E2: u8>() {
     const L: usize = 28 + 2 * RADIAL_MSG;
     let mut b = [0u8; L];
-    let hdr: [u8; 24] = kani::any();
-    b[..24].copy_from_slice(&hdr);
+    b[..4].copy_from_slice(b"AR2V");
     let az: [u16; 2] = kani::any();
     let vcp: [u16; 2] = kani::any();
-    let time: [u32; 2] = kani::any();
-    kani::assume(time[0] < 86_400_000 && time[1] < 86_400_000);
+    let time: [u32; 2] = [43_200_000, 43_200_040];
     b[28] = b'B';
     b[29] = b'Z';
     let n1 = put_radial(&mut b, 28, az[0], E1, Some(vcp[0]), 19_000, time[0]);
